@@ -480,7 +480,7 @@ class ZorgFileCompiler(ZorgFileListener):
             )
             if any(
                 any(
-                    "::" in b.split()[0]
+                    "::" in (b.split() or [""])[0]
                     for b in bullet.split(l2_bullet_prefix)[1:]
                 )
                 for bullet in bullets
@@ -496,7 +496,7 @@ class ZorgFileCompiler(ZorgFileListener):
                 ]
             if any(
                 any(
-                    "::" in b.split()[0]
+                    "::" in (b.split() or [""])[0]
                     for b in bullet.split(l3_bullet_prefix)[1:]
                 )
                 for bullet in bullets
@@ -515,10 +515,12 @@ class ZorgFileCompiler(ZorgFileListener):
 
             for bullet in bullets:
                 words = bullet.split()
-                if zdt.is_short_date_spec(words[0]):
+                if words and zdt.is_short_date_spec(words[0]):
                     words.pop(0)
-                if zdt.is_zid(words[0]):
+                if words and zdt.is_zid(words[0]):
                     words.pop(0)
+                if not words:
+                    continue
                 first_word = words.pop(0)
                 if first_word.endswith("::"):
                     key = first_word[:-2]
